@@ -35,13 +35,16 @@ def drivers(d):
                         "n": not_(d, {"$ref": "other.json#/d"}),
                         "q": {"$ref": "#/definitions/N"},
                         "r": {"$ref": "remote.json#/d"},
-                        "t": {idk: "sub/", "items": {"$ref": "../other.json#/e"}}}}
+                        "t": {idk: "sub/", "items": {"$ref": "../other.json#/e"}},
+                        # an id that cannot be parsed, below a well-formed one: reaching it is a RefResolutionError
+                        "bad": {idk: H + "ok/", "properties": {"z": {idk: "http://[", "type": "integer"}}}}}
     out.append({
         "name": "A", "schema": S,
         "store": {H + "other.json": {"d": {"type": "integer"}, "e": {"items": {"$ref": "#/d"}}}},
         "remote": {H + "remote.json": {"d": {"type": "string"}}},
         "instances": [{"p": 1, "q": "s"}, {"p": "x", "q": 1},
-                      {"n": 3, "q": 1, "t": [["a", 1], [2, "b"]], "p": "y"}, {"r": 1, "q": 2}],
+                      {"n": 3, "q": 1, "t": [["a", 1], [2, "b"]], "p": "y"}, {"r": 1, "q": 2},
+                      {"q": 1, "bad": {"z": "s"}, "p": "x"}],
         "refs": ["#/definitions/N", "remote.json#/d", "other.json#/e"], "scope": "sub/",
     })
     # --- B: recursion, unresolvable reference, abandoning applicators
@@ -101,8 +104,11 @@ class World(object):
         def handler(uri):
             self.calls.append(uri)
             ok = (self.mode == "ok") if self.avail is None else (uri in self.avail)
-            if not ok or uri not in remote:
-                raise IOError("cannot fetch " + uri)
+            if uri not in remote:
+                raise KeyError(uri)                 # what a dict-backed handler does for an unknown document
+            if not ok:
+                self.nfail = getattr(self, "nfail", 0) + 1
+                raise (IOError, RuntimeError, LookupError, TypeError)[self.nfail % 4]("cannot fetch " + uri)
             self.fetched.add(uri)
             return copy.deepcopy(remote[uri])
         cls = _e1.CLS[d]
